@@ -8,14 +8,14 @@ import vlib
 def run(tier, seed):
     chk = vlib.Check("C19", tier, seed)
     src = [os.path.join(vlib.VERIF, "engines", "topo.c"), os.path.join(vlib.VERIF, "hooks", "vhook_stub.c")]
-    B, Bn = (8, 40) if tier == "quick" else (24, 200)
+    B, Bn = (8, 40) if tier == "quick" else (40, 400)
     cases = []
     for fl in ("asan", "asan-ndebug"):  # asan-ndebug: the no-neighbour DIRECTION_RANDOM case is only queried there
         exe = vlib.build_engine("topo", src, flavour=fl)
         cases.append(([exe, "box", str(B), str(Bn), str(seed)], "%s/box" % fl))
         for k in range(3 if tier == "quick" else 10):
             thr = (4, 2, 8)[k % 3] if tier == "quick" else (12, 4, 2, 8)[k % 4]
-            cases.append(([exe, "pure", str(thr), str(20000 if tier == "quick" else 60000), str(seed * 100 + k)], "%s/pure/%d" % (fl, k)))
+            cases.append(([exe, "pure", str(thr), str(20000 if tier == "quick" else 200000), str(seed * 100 + k)], "%s/pure/%d" % (fl, k)))
     for res in vlib.run_cases(cases, parallel=4, timeout=900):
         rec, anomaly = vlib.absorb(chk, res)
         if anomaly:
